@@ -86,7 +86,9 @@ func c01Lookup(c *fw.Ctx) {
 	for _, t := range []string{"s", "tt", "t-", "ns:t"} {
 		others = append(others, layoutRegions(t, [][]byte{[]byte("a")}, 50)...)
 	}
-	probeTables := []string{"t", "tt", "s", "ns:t", "t-", "u", "ns:tt"}
+	// ("ns_t", "ns0t": the shape of the cached "ns:t" with another byte where the
+	// namespace separator is, sorting after / before it)
+	probeTables := []string{"t", "tt", "s", "ns:t", "t-", "u", "ns:tt", "ns_t", "ns0t"}
 	var lookups, hits, misses int64
 	classes := map[string]int64{}
 	var layouts int64
@@ -195,7 +197,7 @@ func containsReg(l []c01Region, r c01Region) bool {
 	return false
 }
 
-var c01Tables = []string{"t", "t1", "t-", "t.", "t_", "tt", "ns:t", "ns:t1", "n", "u"}
+var c01Tables = []string{"t", "t1", "t-", "t.", "t_", "tt", "ns:t", "ns:t1", "n", "u", "ns_t", "ns.t"}
 var c01Alpha = []byte{0x00, '+', ',', '-', '.', '0', ':', 'a', 0xff}
 
 func c01Key(r *rand.Rand, maxLen int) []byte {
@@ -627,7 +629,7 @@ func init() {
 		Level: "exploration",
 		Rule: "(1) exhaustive: every layout of table t with <=3 boundaries drawn from all keys of length<=2 over " +
 			"{00,',',':','a',ff}, every non-empty subset of its regions inserted into the real cache (two first-touch " +
-			"orders) next to regions of tables s, tt, t-, ns:t, then the real lookup for 7 probe tables x all 31 keys " +
+			"orders) next to regions of tables s, tt, t-, ns:t, then the real lookup for 9 probe tables (incl. ns_t, ns0t: ns:t with another byte for the separator) x all 31 keys " +
 			"compared with brute-force containment (each (layout,subset,table,key) is distinct by construction); " +
 			"(2) real client vs simulated cluster: seeded clusters of 1..4 hostile-named tables with 1..6 regions, " +
 			"40..70 sequential requests of all kinds incl. batches over boundary-adjacent keys; every executed action " +
